@@ -24,6 +24,41 @@ CHECKS = {
             dict(name="exhaustive", test="TestExhaustive", kind="enum", shards=(4, 14), timeout=(200, 1500)),
             dict(name="random", test="TestRandom", kind="rapid", checks=(2000, 150000), shards=(4, 14), timeout=(200, 1500)),
         ]),
+
+    "C14": dict(
+        pkg="p_ring", level="exploration",
+        technique="property-based testing of generated producer/consumer programs against a position-dependent stream oracle; free-running and harness-controlled schedules",
+        level_text=("Generated producer programs (Write, WriteWait+WriteCommit, ReadFrom) and consumer programs (Read, ReadPeek/ReadWait + ReadCommit, WriteTo, Len) "
+                    "with boundary-biased chunk sizes on pre-positioned rings (empty/partial/full/wrapped) run against a real ring; every byte the consumer obtains is compared "
+                    "with a stream whose bytes identify their position, peeked bytes are re-verified before commit, and produced-consumed never exceeds the size. "
+                    "Schedules: Go scheduler (free) and rapid-drawn schedules at the ring's yield points (controlled). Sampling, not a proof."),
+        level_note=("Trusted: the stream oracle and the interpreter in harness/p_ring; one producer and one consumer goroutine as the statement says; "
+                    "interleavings beyond the hooked yield points are whatever the Go scheduler produces."),
+        rule=("rapid-generated (producer program, consumer templates, initial cursor state[, schedule bytes]); non-trivial = (free mode: data wrapped >= 2 ring sizes and) a peek crossed "
+              "the ring end (scratch-buffer path) or the producer had to wait for space; distinct = FNV-64 of the case JSON"),
+        assumptions=["single producer goroutine and single consumer goroutine per ring", "requests never exceed the ring size"],
+        units=[
+            dict(name="free", test="TestC14Free", checks=(400, 30000), shards=(4, 14)),
+            dict(name="controlled", test="TestC14Controlled", checks=(400, 30000), shards=(4, 14)),
+        ]),
+    "C15": dict(
+        pkg="p_ring", level="exploration",
+        technique="harness-controlled schedule exploration (rapid-drawn schedules over yield points) with a blocking model judged at quiescence, plus free-running stress",
+        level_text=("Producer, consumer and closer programs run with the harness owning the schedule at the yield points inside the ring's wait paths (cursor read/not yet locked, "
+                    "about to wait, between the steps of Close) and between operations; at global quiescence (every goroutine finished or parked in a lock/condition, taken from a "
+                    "goroutine census) a cursor model decides for each blocked call whether it may still wait: not after a Close started, not when enough data/space exists, never in "
+                    "Mutex.Lock; finally both internal mutexes must be free. A free-running 1-byte ping-pong and free-running programs add unsteered interleavings. Sampling."),
+        level_note=("Trusted: the blocking model in harness/p_ring, the goroutine census (runtime.Stack states), the yield hooks in service/buffer.go (build tag verif). "
+                    "Verdicts are taken at quiescence only, never from a timer alone."),
+        rule=("rapid-generated programs with Close calls from producer, consumer or a third goroutine, initial state empty/partial/full/wrapped, schedule bytes; non-trivial = some goroutine "
+              "ran while its peer was parked inside a wait window (pre-lock/pre-wait yield) or blocked in a wait; pingpong unit counts round trips; distinct = FNV-64 of the case JSON"),
+        assumptions=["single producer and single consumer goroutine plus any number of Close callers", "quiescence is decided from goroutine states reported by runtime.Stack"],
+        units=[
+            dict(name="controlled", test="TestC15Controlled", checks=(600, 60000), shards=(4, 14)),
+            dict(name="controlled-noclose", test="TestC15ControlledNoClose", checks=(200, 20000), shards=(4, 14)),
+            dict(name="free", test="TestC15Free", checks=(120, 6000), shards=(4, 14)),
+            dict(name="pingpong", test="TestC15PingPong", kind="enum", shards=(2, 8)),
+        ]),
 }
 
 # Properties not claimed (MANIFEST.not_applicable) with the reason.
